@@ -11,13 +11,17 @@ import json, os, shutil, subprocess, sys, tempfile
 VERIF = os.path.dirname(os.path.dirname(os.path.abspath(__file__)))
 pid, k = sys.argv[1], sys.argv[2]
 checks = sys.argv[3:] or [pid]
-src = f'/tmp/mut/{pid}/_out'
-dst = os.path.join(VERIF, 'seeded', f'{pid}-{k}')
+root = os.environ.get('MUT_SRC', '/tmp/mut')                 # where the sub-agent worked (first import only)
+src = f'{root}/{pid}/_out'
+num = int(k) + int(os.environ.get('MUT_OFFSET', '0'))       # stored as <ID>-<num>
+k_src = k
+dst = os.path.join(VERIF, 'seeded', f'{pid}-{num}')
 os.makedirs(dst, exist_ok=True)
-if os.path.exists(f'{src}/patch{k}.diff'):          # first import from the sub-agent's scratch worktree
-    shutil.copy(f'{src}/patch{k}.diff', f'{dst}/patch.diff')
-    shutil.copy(f'{src}/demo{k}.py', f'{dst}/demo.py')
-    meta = json.load(open(f'{src}/meta{k}.json'))
+if os.path.exists(f'{src}/patch{k_src}.diff') and not os.path.exists(f'{dst}/patch.diff'):          # first import from the sub-agent's scratch worktree
+    shutil.copy(f'{src}/patch{k_src}.diff', f'{dst}/patch.diff')
+    shutil.copy(f'{src}/demo{k_src}.py', f'{dst}/demo.py')
+    meta = json.load(open(f'{src}/meta{k_src}.json'))
+    meta['origin_dir'] = f'{root}/{pid}'
 else:                                               # re-evaluation of a stored change
     meta = json.load(open(f'{dst}/meta.json'))
 
@@ -32,7 +36,7 @@ try:
     env = dict(os.environ, PYTHONPATH=wt, PYTHONDONTWRITEBYTECODE='1')
     demo = f'{dst}/demo.py'
     # demos were written against /tmp/mut/<ID>: make the path neutral
-    txt = open(demo).read().replace(f'/tmp/mut/{pid}', wt).replace('/tmp/mut/' + meta.get('origin', pid), wt)
+    txt = open(demo).read().replace(meta.get('origin_dir', f'/tmp/mut/{pid}'), wt).replace(f'/tmp/mut2/{pid}', wt).replace(f'/tmp/mut/{pid}', wt)
     open(f'{wt}/_demo.py', 'w').write(txt)
     rc0, out0 = sh(f'/venv/bin/python _demo.py', cwd=wt, env=env)
     ran['demo_on_original'] = f'exit {rc0}'
@@ -57,6 +61,6 @@ finally:
 meta['confirmed'] = ran
 meta['valid'] = bool(ran.get('patch_applies') and ran['demo_on_original'] == 'exit 0' and '250 passed' in ran['tests'] and not ran['demo_on_changed'].startswith('exit 0'))
 json.dump(meta, open(f'{dst}/meta.json', 'w'), indent=1)
-print(pid, k, 'valid' if meta['valid'] else 'INVALID', ran['demo_on_original'], ran['tests'], '|', ran['demo_on_changed'][:80], '| caught by', ran['caught_by'])
+print(pid, num, 'valid' if meta['valid'] else 'INVALID', ran['demo_on_original'], ran['tests'], '|', ran['demo_on_changed'][:80], '| caught by', ran['caught_by'])
 for c, r in ran.get('checks', {}).items():
     print('   ', c, r['exit'], r['first'][:220])
